@@ -9,6 +9,7 @@ import (
 // rng is splitmix64.
 type rng struct{ s uint64 }
 
+//go:norace
 func (r *rng) next() uint64 {
 	r.s += 0x9e3779b97f4a7c15
 	z := r.s
@@ -16,13 +17,19 @@ func (r *rng) next() uint64 {
 	z = (z ^ (z >> 27)) * 0x94d049bb133111eb
 	return z ^ (z >> 31)
 }
+
+//go:norace
 func (r *rng) intn(n int) int {
 	if n <= 1 {
 		return 0
 	}
 	return int(r.next() % uint64(n))
 }
+
+//go:norace
 func (r *rng) chance(pct int) bool { return r.intn(100) < pct }
+
+//go:norace
 func (r *rng) bytes(n int) []byte {
 	b := make([]byte, n)
 	for i := range b {
@@ -30,8 +37,26 @@ func (r *rng) bytes(n int) []byte {
 	}
 	return b
 }
+
+//go:norace
 func (r *rng) pick(xs ...int) int { return xs[r.intn(len(xs))] }
-func newRng(seed uint64) *rng    { return &rng{s: seed} }
+
+//go:norace
+func newRng(seed uint64) *rng { return &rng{s: seed} }
+
+type permRec struct {
+	site string
+	p    []int
+}
+
+// PermsMap folds the recorded permutations into the per-site form of a replay file (single goroutine).
+func (c *recChooser) PermsMap() map[string][][]int {
+	m := map[string][][]int{}
+	for _, r := range c.permLog {
+		m[r.site] = append(m[r.site], r.p)
+	}
+	return m
+}
 
 // recChooser makes seeded choices by strategy and records them; or replays a recorded schedule.
 type recChooser struct {
@@ -39,7 +64,9 @@ type recChooser struct {
 	opts     SchedOpts
 	replay   bool
 	pi       int
-	permIdx  map[string]int
+	siteIdx  map[string]int // replay: read-only after construction
+	permCur  []int
+	permLog  []permRec
 	Picks    []string
 	Perms    map[string][][]int
 	last     string
@@ -53,9 +80,14 @@ type recChooser struct {
 	multiSel  int
 }
 
+//go:norace
 func newChooser(p *Plan, replay bool) *recChooser {
 	c := &recChooser{r: newRng(p.Seed ^ 0xabcdef1234567), opts: p.Sched, replay: replay,
-		permIdx: map[string]int{}, Perms: map[string][][]int{}, explicit: map[string]bool{}}
+		siteIdx: map[string]int{}, explicit: map[string]bool{}}
+	for site := range p.Sched.Perms {
+		c.siteIdx[site] = len(c.permCur)
+		c.permCur = append(c.permCur, 0)
+	}
 	for _, a := range p.Actors {
 		if a.ExplicitOnly {
 			c.explicit["E:"+a.Name] = true
@@ -176,11 +208,13 @@ func (c *recChooser) Perm(site string, n int) []int {
 		p[i] = i
 	}
 	if c.replay {
-		lst := c.opts.Perms[site]
-		i := c.permIdx[site]
-		c.permIdx[site] = i + 1
-		if i < len(lst) && len(lst[i]) == n {
-			copy(p, lst[i])
+		if si, ok := c.siteIdx[site]; ok {
+			lst := c.opts.Perms[site]
+			i := c.permCur[si]
+			c.permCur[si] = i + 1
+			if i < len(lst) && len(lst[i]) == n {
+				copy(p, lst[i])
+			}
 		}
 	} else if c.opts.Strategy != "fifo" {
 		for i := n - 1; i > 0; i-- {
@@ -201,6 +235,6 @@ func (c *recChooser) Perm(site string, n int) []int {
 			c.MapOrder++
 		}
 	}
-	c.Perms[site] = append(c.Perms[site], append([]int(nil), p...))
+	c.permLog = append(c.permLog, permRec{site, append([]int(nil), p...)})
 	return p
 }
